@@ -92,6 +92,19 @@ def gen(chk):
             scr = b"\x00" + push(s) + b"\x51" + b"".join(push(k) for k in ks) + b"\x53\xae"
             # (under DERSIG/LOW_S/STRICTENC the mock signature is refused while it is tried against the unmocked keys that come first)
             sc("opcodes", scr, "%s:%s" % (ts, tp), fl, sv, label=("listed" if fl in (0, 1 << 14) else None))
+    # --- two listed pairs in a multisig: each signature counts for its own key only, in order
+    for _ in range(30 if q else 400):
+        (ta, sa), (tb, sb) = rng.sample(TOKS, 2)
+        (tpa, pa), (tpb, pb) = rng.sample(TOKS, 2)
+        if len({sa, sb, pa, pb}) < 4: continue
+        sv = rng.choice([0, 1]); fl = rng.choice([0, 1 << 14])
+        pv = "%s:%s,%s:%s" % (ta, tpa, tb, tpb)
+        ms = lambda sigs, keys: b"\x00" + b"".join(push(x) for x in sigs) + bytes([0x50 + len(sigs)]) + b"".join(push(k) for k in keys) + bytes([0x50 + len(keys), 0xae])
+        sc("opcodes", ms([sa, sb], [pa, pb]), pv, fl, sv, label="listed")          # in order
+        sc("opcodes", ms([sb, sa], [pa, pb]), pv, fl, sv, label="othersig")        # crossed: each signature meets the other pair's key
+        sc("opcodes", ms([sb], [pa]), pv, fl, sv, label="othersig")                # a listed signature for another listed key
+        sc("opcodes", ms([sa], [pb, pa]), pv, fl, sv, label="listed")              # found at the second key
+        sc("opcodes", push(sb) + push(pa) + b"\xac", pv, fl, sv, label="othersig")
     # --- with a transaction: mocked pair inside a spend whose real signature is broken
     for k in ["p2pkh", "p2pk", "p2wpkh", "p2wsh", "p2sh", "p2tr-script"]:
         for mut in (None, "wrongkey", "sigbyte"):
